@@ -60,6 +60,12 @@ def check(ctx):
     # the current release's two non-atomic phases must show up as design-level counterexamples (they are the recorded findings)
     r = model_check(ctx, "MastFaults.tla", "MC_Faults_current.cfg", expect_ok=False, workers=4, heap=4, timeout=600)
     mc.append(dict(cfg="MC_Faults_current.cfg", expected="counterexample", found=r["error"]))
+    # navigation under a failing Load (MastCursor.tla, RetrySafe): the repaired Forward / Backward pass, the behaviour before fix 6587a03 must fail
+    r = model_check(ctx, "MastCursor.tla", "MC_Cursor_retry.cfg", workers=8, heap=6, timeout=900)
+    states, trans = states + r["distinct"], trans + r["generated"]
+    mc.append(dict(cfg="MC_Cursor_retry.cfg", distinct=r["distinct"], generated=r["generated"], wall_s=round(r["wall"], 1)))
+    r = model_check(ctx, "MastCursor.tla", "MC_Cursor_retry_asis.cfg", expect_ok=False, workers=4, heap=4, timeout=600)
+    mc.append(dict(cfg="MC_Cursor_retry_asis.cfg", expected="counterexample", found=r["error"]))
     drv = build_harness(ctx)
     viols, start, by_id, describe, stat, chunks = fault_runs(ctx, drv, "250" if quick else "3000", "8" if quick else "40", 4 if quick else 14)
     rc, nnew = report_violations(ctx, viols, start, by_id, describe)
